@@ -30,7 +30,12 @@ func (c *Conversation) receiveUnit(m ValidMessage, forgetFragments bool) (plain 
 		return nil, nil, errUnsupportedOTRVersion
 	case msgGuessFragment:
 		shouldForgetFragment = false
+		theirTagBefore := c.theirInstanceTag
 		c.fragmentationContext, err = c.receiveFragment(c.fragmentationContext, message)
+		if err != nil {
+			// an invalid fragment does not bind the conversation to the instance it names
+			c.theirInstanceTag = theirTagBefore
+		}
 		if fragmentsFinished(c.fragmentationContext) {
 			assembled := c.fragmentationContext.frag
 			c.fragmentationContext = forgetFragment()
